@@ -10,6 +10,7 @@ import OcVerif.Driver.RtWait
 import OcVerif.Driver.RtLoop
 import OcVerif.Driver.RtWake
 import OcVerif.Driver.RtCancel
+import OcVerif.Driver.RtStop
 import OcVerif.Driver.Co
 import OcVerif.Driver.Local
 import OcVerif.Driver.Beans
@@ -48,6 +49,7 @@ def dispatch (comp : String) : Option (String → String → Verdict) :=
   | "rtloop" => some Driver.RtLoop.drive
   | "rtwake" => some Driver.RtWake.drive
   | "rtcancel" => some Driver.RtCancel.drive
+  | "rtstop" => some Driver.RtStop.drive
   | "co" => some Driver.Co.drive
   | "local" => some Driver.Local.drive
   | "beans" => some Driver.Beans.drive
